@@ -29,6 +29,79 @@ KANI_UNITS = {
   },
 }
 
+KANI_UNITS['fold'] = {
+  'crate': 'samlang-optimization',
+  'module': 'conditional_constant_propagation::verif_kani',
+  'splices': [('crates/samlang-optimization/src/conditional_constant_propagation.rs',
+               'kx/harness/samlang-optimization/conditional_constant_propagation.rs', 'verif_kani')],
+  'functions': ['evaluate_bin_op', 'merge_binary_expression'],
+  'harnesses': {
+    'fold_mul': {'tier': 'quick', 'complete': True},
+    'fold_plus': {'tier': 'quick', 'complete': True},
+    'fold_minus': {'tier': 'quick', 'complete': True},
+    'fold_land': {'tier': 'quick', 'complete': True},
+    'fold_lor': {'tier': 'quick', 'complete': True},
+    'fold_xor': {'tier': 'quick', 'complete': True},
+    'fold_shl': {'tier': 'quick', 'complete': True},
+    'fold_shr': {'tier': 'quick', 'complete': True},
+    'fold_comparisons': {'tier': 'quick', 'complete': True},
+    'fold_div_no_panic_and_traps_kept': {'tier': 'quick', 'complete': True},
+    'fold_mod_no_panic_and_traps_kept': {'tier': 'quick', 'complete': True},
+    'fold_div_mod_value': {'tier': 'thorough', 'complete': True},
+    'merge_arith_same_value': {'tier': 'quick', 'complete': True},
+    'merge_eq_ne_same_value': {'tier': 'quick', 'complete': True},
+    'merge_ordering_same_value_all_inputs': {'tier': 'quick', 'complete': True},
+    'merge_ordering_same_value_no_overflow': {'tier': 'quick', 'complete': True},
+  },
+}
+
+KANI_UNITS['loc'] = {
+  'crate': 'samlang-ast',
+  'module': 'loc::verif_kani',
+  'splices': [('crates/samlang-ast/src/loc.rs', 'kx/harness/samlang-ast/loc.rs', 'verif_kani')],
+  'functions': ['Position (derived Ord)', 'Location::contains_position', 'Location::contains', 'Location::union'],
+  'harnesses': {
+    'position_order_is_lexicographic_line_then_column': {'tier': 'quick', 'complete': True},
+    'contains_position_is_the_closed_interval': {'tier': 'quick', 'complete': True},
+    'contains_is_nesting_reflexive_transitive': {'tier': 'quick', 'complete': True},
+    'union_is_the_least_enclosing_range': {'tier': 'quick', 'complete': True},
+    'union_of_different_modules_panics': {'tier': 'quick', 'complete': True},
+  },
+}
+
+KANI_UNITS['mirbin'] = {
+  'crate': 'samlang-ast',
+  'module': 'mir::verif_kani',
+  'splices': [('crates/samlang-ast/src/mir.rs', 'kx/harness/samlang-ast/mir.rs', 'verif_kani')],
+  'functions': ['Statement::binary_unwrapped', 'Statement::flexible_order_binary', 'Statement::binary_flexible_unwrapped',
+                'Expression::cmp'],
+  'harnesses': {
+    'binary_unwrapped_same_value': {'tier': 'quick', 'complete': True},
+    'flexible_order_binary_same_value': {'tier': 'quick', 'complete': True},
+    'binary_flexible_unwrapped_same_value': {'tier': 'quick', 'complete': True},
+    'flexible_order_binary_is_order_insensitive_for_commutative_ops': {'tier': 'quick', 'complete': True},
+  },
+}
+
+KANI_UNITS['induction'] = {
+  'crate': 'samlang-optimization',
+  'module': 'loop_induction_analysis::verif_kani',
+  'splices': [('crates/samlang-optimization/src/loop_induction_analysis.rs',
+               'kx/harness/samlang-optimization/loop_induction_analysis.rs', 'verif_kani')],
+  'functions': ['merge_invariant_addition_for_loop_optimization', 'merge_invariant_multiplication_for_loop_optimization',
+                'merge_constant_operation_into_derived_induction_variable',
+                'merge_variable_addition_into_derived_induction_variable', 'GuardOperator::invert',
+                'GuardOperator::to_op', 'get_guard_operator'],
+  'harnesses': {
+    'merge_invariant_addition_same_value': {'tier': 'quick', 'complete': True},
+    'merge_invariant_multiplication_same_value': {'tier': 'quick', 'complete': True},
+    'merge_constant_operation_into_derived_same_value': {'tier': 'quick', 'complete': True},
+    'merge_variable_addition_into_derived_same_value': {'tier': 'quick', 'complete': True},
+    'guard_invert_is_negation_and_to_op_is_faithful': {'tier': 'quick', 'complete': True},
+    'get_guard_operator_is_the_continue_condition': {'tier': 'quick', 'complete': True},
+  },
+}
+
 PROPERTIES = {
   'C17': {
     'verus': ['heap'],
